@@ -300,6 +300,70 @@ func checkC12(c *Check) {
 			return true
 		})
 		c.Hold("R2", "timewheel:dispatch-on-timer-expiry", dcalls[0].call.Pos(), okTimer, "the dispatch is not on the branch of a timer armed with the selected entry's remaining time (an entry could be dispatched before its scheduled time)")
+		// the entry that will be dispatched is chosen only by the scan over the whole list (the earliest of all entries),
+		// and the timer is never re-armed with another entry's time: an entry picked by position (`Back()` – Add's
+		// append and its notification are not atomic, another producer's later entry may be the last one) under a timer
+		// set for the notified time is dispatched before it is due
+		if len(dcalls[0].call.Args) == 1 {
+			so := objOf(info, dcalls[0].call.Args[0])
+			msgSel := ""
+			var scanLoops []*ast.ForStmt
+			ast.Inspect(fi.Decl.Body, func(x ast.Node) bool {
+				if fs, ok := x.(*ast.ForStmt); ok && fs.Init != nil {
+					front := false
+					ast.Inspect(fs.Init, func(y ast.Node) bool {
+						if call, ok := y.(*ast.CallExpr); ok && isCall(info, call, "container/list.List.Front") {
+							front = true
+						}
+						return true
+					})
+					if front {
+						scanLoops = append(scanLoops, fs)
+					}
+				}
+				return true
+			})
+			ast.Inspect(fi.Decl.Body, func(x ast.Node) bool {
+				as, ok := x.(*ast.AssignStmt)
+				if !ok {
+					return true
+				}
+				for _, l := range as.Lhs {
+					if so == nil || objOf(info, l) != so {
+						continue
+					}
+					inScan := false
+					for _, fs := range scanLoops {
+						if posIn(fs.Body, as.Pos()) {
+							inScan = true
+						}
+					}
+					if !inScan {
+						msgSel = "line " + itoa(p.Fset.Position(as.Pos()).Line) + ": the entry to dispatch is chosen outside the scan over the whole list (" + exprStr(as.Rhs[0]) + "): it need not be the earliest one, nor the one the timer was armed for"
+					}
+				}
+				return true
+			})
+			ast.Inspect(fi.Decl.Body, func(x ast.Node) bool {
+				call, ok := x.(*ast.CallExpr)
+				if !ok || !isCall(info, call, "time.Timer.Reset", "time.AfterFunc", "time.After") || len(call.Args) < 1 {
+					return true
+				}
+				d := resolveLocal(info, fi.Decl.Body, call.Args[0])
+				okD := false
+				if sub, ok := ast.Unparen(d).(*ast.CallExpr); ok && (isCall(info, sub, "time.Time.Sub") && mentions(info, callRecv(sub), so) || isCall(info, sub, "time.Until") && len(sub.Args) == 1 && mentions(info, sub.Args[0], so)) {
+					okD = true
+				}
+				if !okD {
+					msgSel = "line " + itoa(p.Fset.Position(call.Pos()).Line) + ": a timer is armed with " + exprStr(call.Args[0]) + ", which is not the remaining time of the entry that will be dispatched when it fires"
+				}
+				return true
+			})
+			if len(scanLoops) == 0 {
+				msgSel = "undecided: no scan over the slot list found"
+			}
+			c.Hold("R2", "timewheel:entry-chosen-by-scan", dcalls[0].call.Pos(), msgSel == "", msgSel)
+		}
 	}
 	nTick := 0
 	for _, g := range gos {
@@ -365,6 +429,38 @@ func checkC12(c *Check) {
 		})
 	})
 	c.Hold("R4", "Queue.deliveryWg.Add", token.NoPos, okAdd && addSites == 1, "in-flight attempts are registered outside the synchronous part of the dispatch callback (Wait can miss them)")
+
+	// R4b: who reads the shutdown flag. Close stops the scheduler first and then waits for the attempts in flight; an
+	// attempt that ends in a permanent failure during that wait enqueues its failure report through Queue.Start /
+	// Body / Commit and removes the original. The accept path therefore keeps spooling while the queue shuts down
+	// (the next start picks the report up); if it looked at the scheduler's stopped flag and refused, the report
+	// would be dropped and the original removed – a message gone without a terminal outcome.
+	c.Rule("R4b", "the scheduler's stopped flag is read and written only by the scheduler's own methods: the queue's accept path (Start, AddRcpt, Body, Commit) does not depend on it and keeps spooling during shutdown", 2)
+	nStopped := 0
+	p.AllFuncs([]*packagesPkg{qpk}, func(fi *FuncInfo) {
+		fi2 := fi
+		ast.Inspect(fi.Decl.Body, func(x ast.Node) bool {
+			sel, ok := x.(*ast.SelectorExpr)
+			if !ok {
+				return true
+			}
+			fv := fieldOf(info, sel)
+			if fv == nil || objName(fv) != "stopped" {
+				return true
+			}
+			if owner := fieldOwner(p, fv); owner == nil || objName(owner.Obj()) != "TimeWheel" {
+				return true
+			}
+			nStopped++
+			c.SawFunc(fi2.Name())
+			okSite := recvTypeName(fi2.Decl) == "TimeWheel" || refName(fi2.Obj) == "NewTimeWheel"
+			c.Hold("R4b", refName(fi2.Obj)+":stopped"+itoa(nStopped), sel.Pos(), okSite, "the scheduler's shutdown flag is consulted outside the scheduler ("+fi2.Name()+"): a part of the queue that refuses work while the wheel is stopped drops what an in-flight attempt hands it during Close – e.g. the failure report of a message that is then removed from the spool")
+			return true
+		})
+	})
+	if nStopped == 0 {
+		c.Fail("R4b", "TimeWheel.stopped", token.NoPos, "undecided: the shutdown flag of the scheduler was not found")
+	}
 
 	c.Rule("R5", "the panic handler of an attempt renames the metadata (quarantine) and never removes spool files", 1)
 	c.Rule("R6", "the synchronous part of the dispatch callback (it runs on the scheduler goroutine) performs no blocking operation", 1)
